@@ -43,12 +43,12 @@ var errIter = errors.New("injected iterator failure")
 var errWrite = errors.New("injected writer failure")
 
 type memIter struct {
-	keys  []int
-	table int
-	pos   int
+	keys   []int
+	table  int
+	pos    int
 	failAt int // position whose Next fails (-1 none)
-	tombs int64
-	fired *int
+	tombs  int64
+	fired  *int
 }
 
 func mkKey(i int) []byte { return []byte(fmt.Sprintf("k%05d", i)) }
